@@ -284,7 +284,7 @@ def round_trip(sx, shape, symrows, lab='int', alab='str', explicit=False):
 
 def jobs(tier):
     quick = tier == 'quick'
-    o = dict(timeout_ms=15000, budget_s=(300 if tier == 'quick' else 600), max_paths=4000)
+    o = dict(timeout_ms=15000, budget_s=(120 if tier == 'quick' else 600), max_paths=4000)
     labs = ['int', 'str', 'tuple', 'frozendict', 'mixed']
     for i, sh in enumerate(BASE):
         pairs = sorted(sh.rows)
